@@ -145,6 +145,23 @@ Theorem C17_split_lookup_insert_two_limiters_refuted :
 Proof. exact split_lookup_insert_two_limiters_refuted. Qed.
 Print Assumptions C17_split_lookup_insert_two_limiters_refuted.
 
+(** The limiter registered for a CA + account is never replaced: in [kstep_atomic] a key that
+    is present keeps its limiter (one_limiter_per_key, every history), whatever the package
+    variables RateLimitEvents / RateLimitEventsWindow are set to later — they only configure
+    limiters of NEW keys.  The translator re-reads that the insertion in acmeClient.throttle is
+    guarded by exactly `!ok`; class key-history changes the variables between throttles of one
+    key and checks at the real code that the limiter object and its stamps stay.  (R) what a
+    throttle that "refreshes" a limiter created under other limits would allow. *)
+Theorem C17_throttle_keeps_registered_limiter : throttle_insert_guard_is_absent_only = true.
+Proof. reflexivity. Qed.
+Print Assumptions C17_throttle_keeps_registered_limiter.
+
+Theorem C17_refresh_on_changed_limits_two_limiters_refuted :
+  exists ls s evs k l1 l2, krun (kstep_refresh (Nat.eqb 0)) kinit ls = Some (s, evs) /\
+    In (k, l1) evs /\ In (k, l2) evs /\ l1 <> l2.
+Proof. exact refresh_on_changed_limits_two_limiters_refuted. Qed.
+Print Assumptions C17_refresh_on_changed_limits_two_limiters_refuted.
+
 (** the default limits are a valid configuration for the first theorem *)
 Theorem C17_default_limits_valid : 0 < rate_limit_events /\ 0 < rate_limit_events_window.
 Proof. split; reflexivity. Qed.
